@@ -230,7 +230,7 @@ PRINT_RE = re.compile(r'^"([A-Z]+) (.*)"$')
 
 
 def run_tlc(files, module, cfg_text, workers=1, timeout=600, heap="2g", simulate=None, depth=None,
-            extra_args=None, dfs=False, keep_dir=None, seed_=None):
+            extra_args=None, dfs=False, keep_dir=None, seed_=None, fast_start=None):
     """files: dict name -> text, or paths of spec files to copy.  Runs TLC in a scratch directory."""
     wd = keep_dir or scratch("verif-tlc-")
     try:
@@ -242,7 +242,11 @@ def run_tlc(files, module, cfg_text, workers=1, timeout=600, heap="2g", simulate
                     f.write(text)
         with open(os.path.join(wd, module + ".cfg"), "w") as f:
             f.write(cfg_text)
-        cmd = ["java", "-XX:+UseParallelGC", "-Xmx" + heap, "-Xss64m"]
+        if fast_start is None:
+            fast_start = workers == 1
+        # short single-worker runs: serial GC and C1 only cut the CPU cost of a run from ~7 s to ~2 s
+        cmd = ["java"] + (["-XX:+UseSerialGC", "-XX:TieredStopAtLevel=1"] if fast_start else ["-XX:+UseParallelGC"]) + \
+              ["-Xmx" + heap, "-Xss64m"]
         if dfs:
             cmd.append("-Dtlc2.tool.queue.IStateQueue=StateDeque")
         cmd += ["-cp", TLA_CP, "tlc2.TLC", "-workers", str(workers), "-metadir", os.path.join(wd, "meta"),
@@ -364,7 +368,7 @@ class Verdicts:
             if k["id"] in self.hit:
                 print("KNOWN-FINDING: property=%s %s (%d occurrences) [%s]" %
                       (self.pid, k["what"], self.hit[k["id"]], k["id"]))
-        for key, what, replay in self.new[:20]:
+        for key, what, replay in self.new[:80]:
             path = write_replay(self.pid, {"property": self.pid, "key": key, "what": what, "replay": replay})
             print("VIOLATION property=%s replay=%s" % (self.pid, path))
             print("  " + what)
